@@ -56,7 +56,7 @@ theorem fields_roundtrip (b : Bytes) (bs : List Bytes) (n : Int) (x : F64) (t : 
 /-
   Full statement: for every state-changing call c of the API, from `Same now p r` on a watched,
   drained primary, the replica can apply `Feed.emission` of the call and then shows the primary's
-  logical keyspace.  It fails inside `Call.Region` (witnesses below); it is proved for the 59 methods
+  logical keyspace.  It fails inside `Call.Region` (witnesses below); it is proved for the 68 methods
   of `Call` (list at the end of the file) outside the region.
 -/
 /-- one call: the replica applies, at the same time `now`, what the call hands to a watcher, and
@@ -242,24 +242,44 @@ example : Same 0 wStr wStr ∧ wStr.listeners = true ∧ wStr.feed = [] := by
   have s1 : Same 0 (drain ((Call.set [107] [118] false).run (emptyWatched false) 0).1) (drain r') := s.drain
   exact ⟨⟨s1.invP, s1.invP, rfl, s1.nonil⟩, by decide, by decide⟩
 
-/- COVERED by `replay_call_partial` / `replay_sequence_partial` (59 methods, `Call`):
+/-! ### applying records late -/
+
+/-- records must reach the replica before the clock passes a deadline the record does not carry: an
+    HSET applied after the key's deadline has passed re-creates the key (without deadline) on the
+    replica, while on the primary the key is gone; applied at the time of the call, the replica agrees
+    with the primary at every later time.  (The closed loop of the check therefore replicates before
+    every clock step.) -/
+theorem late_apply_finding :
+    logical wHashExp 5 = [([107], .hash [([102], [118])], 10)] ∧
+    (Api.hset wHashExp 5 [107] [103] [119]).1.feed.map (·.typ) = [10] ∧
+    logical (Api.hset wHashExp 5 [107] [103] [119]).1 5 = [([107], .hash [([102], [118]), ([103], [119])], 10)] ∧
+    logical (Api.hset wHashExp 5 [107] [103] [119]).1 20 = [] ∧
+    (∃ r', Feed.applyAll wHashExp 5 [opHSet [107] [103] [119]] = some r' ∧
+      logical r' 5 = logical (Api.hset wHashExp 5 [107] [103] [119]).1 5 ∧ logical r' 20 = []) ∧
+    (∃ r', Feed.applyAll wHashExp 20 [opHSet [107] [103] [119]] = some r' ∧
+      logical r' 20 = [([107], .hash [([103], [119])], 0)]) :=
+  Proofs.C20.late_apply_finding
+
+/- COVERED by `replay_call_partial` / `replay_sequence_partial` (68 methods, `Call`):
      Del Unlink Expire ExpirePX ExpireNX ExpireXX ExpireLT ExpireGT ExpireAt ExpireAtNX ExpireAtXX ExpireAtLT
-     ExpireAtGT Rename Persist Clear HClear ZClear | Set GetSet SetEX SetPX SetNX SetXX Incr IncrBy Decr DecrBy
-     IncrByFloat SetBit Append SetRange MSet | LPush RPush LPop RPop LInsert LPushX RPushX LRem LSet LTrim |
-     HSet HDel HIncrBy HSetNX HMSet | SAdd SRem SPop | ZAdd ZAddXX ZAddNX ZAddLT ZAddGT ZRem ZRemRangeByRank
-     ZRemRangeByScore.
-   Regions (`Call.Region`, decidable in the logical content of the key):
+     ExpireAtGT Rename RenameNX Persist Clear HClear ZClear | Set GetSet SetEX SetPX SetNX SetXX Incr IncrBy Decr
+     DecrBy IncrByFloat SetBit Append SetRange MSet | LPush RPush LPop RPop LInsert LPushX RPushX LRem LSet LTrim
+     LPopRPush RPopLPush | HSet HDel HIncrBy HIncrByFloat HSetNX HMSet | SAdd SRem SPop SMove SDiffStore
+     SInterStore SUnionStore | ZAdd ZAddXX ZAddNX ZAddLT ZAddGT ZIncrBy ZRem ZRemRangeByRank ZRemRangeByScore.
+   Regions (`Call.Region`, a predicate of the logical content of the key):
      * Incr/IncrBy/Decr/DecrBy: key missing and the counter operation fails (`replay_call_finding`);
      * SetRange: key missing and the call panics (`replay_call_finding_setRange`);
-     * IncrByFloat: key missing and the arithmetic leaves the model's integer fragment (no witness: the
-       model answers "unsupported" there);
+     * IncrByFloat / HIncrByFloat: key missing and the arithmetic leaves the model's integer-valued float
+       fragment (the model answers "unsupported" after creating the key; no witness);
      * HMSet: key missing and no fields (`replay_call_finding_hmset`);
      * ZRem*: the key holds an *empty* sorted set and nothing is removed (the primary unlinks the key
-       silently; not reachable through the API, no concrete witness proved).
-   NOT COVERED (no theorem, no counterexample): RenameNX, LPopRPush / RPopLPush, HIncrByFloat, SMove,
-     SDiffStore / SInterStore / SUnionStore, ZIncrBy, ZUnionStore / ZInterStore; the multi-key readers
-     (Scan, SDiff/SInter/SUnion, ZUnion/ZInter) are not in `Read`.
-   UNPROVED: the replica applies each batch at the time of the call (`applyBatches`); a replica time
-     strictly later than the call's is only covered through `same_later` on the result. -/
+       silently; not reachable through the API, no concrete witness proved);
+     * ZIncrBy: the resulting score is NaN (inf + -inf, or a NaN increment through the embedded API): the
+       sorted-set invariant does not cover NaN scores; no witness.
+   NOT COVERED (no theorem, no counterexample): ZUnionStore / ZInterStore; the multi-key readers
+     Scan, ZUnion, ZInter are not in `Read` (SDiff/SInter/SUnion are proved read-only: `SetReader`).
+   Later replica time: `late_apply_finding` — a record applied after a deadline it does not carry has
+     passed diverges; batches are applied at the time of their call (`applyBatches`), and the result
+     holds at every later time (`same_later`). -/
 
 end NodisVerif.C20
